@@ -2,7 +2,7 @@
    On the specification machines this holds for every state and operation (theorems below): their force is the
    correspondence with the implementation on histories that contain failing operations.  On the faithful model the
    property is false today: refutations pinned as runs of M_py. *)
-From MX Require Import Spec.Particle Gen.Names Gen.Templates Model.AbsSeq Model.Classes Model.SeqMachine Model.AbsBag Model.PyM Model.PyObs Gen.Code Model.EltEffects.
+From MX Require Import Spec.Particle Gen.Names Gen.Templates Model.AbsSeq Model.Classes Model.SeqMachine Model.ChoiceSeq Model.AbsBag Model.PyM Model.PyObs Gen.Code Model.EltEffects.
 From Coq Require Import List Bool Arith.
 Import ListNotations.
 
@@ -31,6 +31,10 @@ Print Assumptions C10_partial_seq_future.
 Theorem C10_partial_bag : forall alpha s o, snd (bstep alpha s o) <> BOk -> fst (fst (bstep alpha s o)) = fst s.
 Proof. intros alpha s [a|]; simpl; [|intros H; exfalso; apply H; auto]. destruct (mem_pos a alpha); simpl; auto. intros H; exfalso; apply H; auto. Qed.
 Print Assumptions C10_partial_bag.
+
+Theorem C10_partial_choice : forall s o, snd (cstep s o) <> MOk -> ctree (fst (cstep s o)) = ctree s /\ cins (fst (cstep s o)) = cins s.
+Proof. exact C10_cmachine. Qed.
+Print Assumptions C10_partial_choice.
 
 (* ---- the element-level half: order of checks and stores in XMLElement.add_child / remove / replace_child / value_ setter, read from the source ---- *)
 Theorem C10_element_checks_first : tr_element_ok = true /\ checks_first elt_add_child = true /\ checks_first elt_remove = true /\ checks_first elt_value_set = true
